@@ -40,6 +40,20 @@ pub fn check_document(text: &str, t: &mut Tally) {
     if let Err(e) = explore::guard(|| check_parsed(text, &value, &map)).unwrap_or_else(|p| Err(format!("panic: {p}"))) {
         t.violation("", e, case(text));
     }
+    // a caller that announces other character lengths (a UTF-16 document: 2 or 4 bytes per
+    // character) must get the same value and, position for position, the same code map in its
+    // own metric - the offsets handed out by the navigation API index that map
+    if text.len() <= 64 {
+        t.evals += 1;
+        match crate::drive::utf16_entry(text, crate::drive::STRICT) {
+            crate::drive::Out::Ok(v16, m16) => {
+                if v16 != value || m16 != crate::drive::map_of(&map) {
+                    t.violation("", "parsed from characters announced with their UTF-16 lengths, the code map (translated back) differs from the UTF-8 one".to_string(), case(text));
+                }
+            }
+            other => t.violation("", format!("parsed from characters announced with their UTF-16 lengths: {}", other.brief()), case(text)),
+        }
+    }
     // the byte-slice entry point must navigate identically
     if let Ok((v2, m2)) = Value::parse_slice(text.as_bytes()) {
         t.evals += 1;
